@@ -145,16 +145,16 @@ public:
 
     vector_iterator& operator--() {
         __TBB_ASSERT(my_index > 0, "operator--() applied to iterator already at beginning of concurrent_vector");
-        --my_index;
         if (my_item != nullptr) {
             if (vector_type::is_first_element_in_segment(my_index)) {
                 // If the iterator crosses a segment boundary, the pointer become invalid
-                // as possibly next segment is in another memory location
+                // as possibly previous segment is in another memory location
                 my_item = nullptr;
             } else {
                 --my_item;
             }
         }
+        --my_index;
         return *this;
     }
 
